@@ -206,6 +206,8 @@ def worker(case: Dict[str, Any]) -> CaseResult:
     sdl, frs, ops, names, feats, schema_ref = built
     spec, _, _ = generate_schema(case["seed"] * 100003 + case["idx"], set(case.get("dirty", [])), size=case.get("size", "m"))
     defs = spec.definitions()
+    if case.get("_sdl"):
+        defs = [d for d in case["_sdl"].split("\n\n") if d.strip()]
     feats = set(cw.case_features(case, feats))
     cfg_full = {k: v for k, v in case["cfg"].items() if not k.startswith("_")}
     queries = "\n\n".join(frs + ops)
@@ -400,7 +402,7 @@ def replay(data) -> int:
     if "mode" in case:
         res = core.run_forked([case], failure_worker)[0]
     else:
-        case = {k: v for k, v in case.items() if not k.startswith("_")}
+        case = dict(case)
         res = core.run_forked([case], worker)[0]
     print("status:", res.status, res.note)
     for v in res.violations:
